@@ -381,9 +381,6 @@ Section EpochLine2.
     { pose proof (isnumeric_year (ep_zero t) (ep_y t mod 100)) as N.
       destruct (if ep_zero t then digits_fixed 2 (ep_y t mod 100) else render_nat (ep_y t mod 100)); [discriminate|reflexivity]. }
     rewrite Ny, M1. destruct (first_year Y fmo fd fh fmi fsec HY) as [F4 F2]. rewrite F4.
-    assert (LO : match meta_str "time_last_obs" s with Some tl => String.eqb (take 4 tl) (render_nat Y) | None => true end = true).
-    { unfold last_inv in M2. destruct (meta_str "time_last_obs" s); [rewrite M2; apply String.eqb_refl|reflexivity]. }
-    rewrite LO. cbn [negb].
     rewrite F2, zfill_year by exact Yy.
     rewrite parse_int_two by (first [exact Yy | split; [apply Z.div_pos; lia|apply Z.div_lt_upper_bound; lia]]).
     assert (Ey : (Y / 100 * 100 + ep_y t mod 100 = ep_y t)%Z) by (rewrite <- Hc; pose proof (Z.div_mod (ep_y t) 100); lia).
